@@ -211,7 +211,8 @@ class Contract:
     def __init__(self, qualname, params=None, cases=None, requires=None, ensures=None, raises=None,
                  result=None, loops=None, canaries=None, inline=False, hints=None, notes='',
                  modular_raises=None, properties=(), native_call=None, frame=None, local_models=None,
-                 native_oracle=None, expr_contracts=None, exc_ensures=None, skeleton=False, modular_effect=None, arg_pins=None):
+                 native_oracle=None, expr_contracts=None, exc_ensures=None, skeleton=False, modular_effect=None, arg_pins=None,
+                 decreases=None, globals_spec=None):
         self.qualname = qualname
         self.params = params or {}
         #: list of (label, {param: Spec}) overriding `params`; each case is explored separately
@@ -242,6 +243,10 @@ class Contract:
         self.modular_effect = modular_effect
         #: (callee name, positional index) -> dict(source, value=f(interp, frame), doc): assumed contract on one argument expression
         self.arg_pins = arg_pins or {}
+        #: f(**args) -> integer term: measure that every recursive call must strictly decrease (and keep >= 0)
+        self.decreases = decreases
+        #: dotted module attribute -> Spec: mutable module state the function reads / rebinds (ghost store, one value per path)
+        self.globals_spec = globals_spec or {}
         #: local name -> factory of a typed model for `name = []` (an empty list literal carries no element type)
         self.local_models = local_models or {}
 
@@ -283,6 +288,11 @@ class Contract:
                 continue
             if ctx.branch(c):
                 raise PyRaise(exc, f'contract of {self.qualname}')
+        if self.decreases is not None and ctx.fn_stack and ctx.fn_stack[0] == self.qualname:
+            # a recursive call: the measure taken at the caller's entry strictly decreases (termination)
+            m0 = ctx.ghost.get('measure_at_entry')
+            m1 = self.call(self.decreases, view, tys)
+            ctx.oblige(f'var@{site}.decreases', False if m0 is None else z3.And(m1 >= 0, m1 < m0))
         ctx.ghost.setdefault('calls', []).append((self.qualname, dict(env)))
         if self.modular_effect is not None:
             self.modular_effect(ctx, **env)
@@ -295,7 +305,12 @@ class Contract:
         if self.ensures is not None and not self.skeleton:
             # (typestate contracts state their postconditions over the ghost versions since *their own* entry; at a call site
             #  their effect is applied by modular_effect instead)
-            for cname_, f in _as_dict(self.call(self.ensures, view, tys, raw(res))).items():
+            ctx.modular_site = site
+            try:
+                posts_ = _as_dict(self.call(self.ensures, view, tys, raw(res)))
+            finally:
+                ctx.modular_site = None
+            for cname_, f in posts_.items():
                 # a Sequent's local hypotheses are definitional reveals used by the callee's own proof: the caller
                 # only learns the (opaque) conclusion
                 f = f.goal if isinstance(f, smt.Sequent) else f
